@@ -179,3 +179,16 @@ func dumpKinds(p *Program) {
 		}
 	}
 }
+
+func dumpInit(p *Program, rel string) {
+	sp := p.SSAPkg(rel)
+	if sp == nil {
+		fmt.Println("no such package")
+		return
+	}
+	st := p.initStateOf(sp)
+	fmt.Println("ok:", st.ok, "why:", st.why)
+	for g, v := range st.vals {
+		fmt.Printf("  %s frozen=%v table=%v = %s\n", g.Name(), p.initFrozen(g), tableValue(v, 0), cut(v.String(), 200))
+	}
+}
